@@ -1,6 +1,6 @@
 (** C03 -- wire codec lossless, matches the SCION format, never truncates silently:
     property theorems only. *)
-From Sci Require Import Wire.Codec Wire.Spec_C03 Wire.Proofs_C03 Wire.BitFieldProofs Wire.ChecksumProofs.
+From Sci Require Import Wire.Codec Wire.Spec_C03 Wire.Proofs_C03 Wire.BitFieldProofs Wire.ChecksumProofs Wire.RoundTripProofs Wire.ChecksumVerify Wire.LengthProofs.
 Local Open Scope N_scope.
 
 (** A model that cannot be represented on the wire is rejected: whenever the encoder's gate
@@ -16,10 +16,8 @@ Print Assumptions unrepresentable_rejected.
 (** The numbers handed to the three length-field writers are the TRUE sizes -- header size in
     4-byte units, payload size, UDP length -- as numbers: the [as u8] / [as u16] conversions
     of the encoder do not cut anything and each value fits its field.
-    PARTIAL: the statement is about the values written; that the bits read back from the
-    encoded buffer are these values needs [lane_write_spec] (Wire.BitFieldProofs), covered by
-    the correspondence check (strict independent reader [spec_decode] on every encoding). *)
-Theorem length_fields_truthful_partial :
+    (The statement about the bits read back from the encoded buffer is [length_fields_truthful].) *)
+Theorem written_length_values_exact :
   forall p : packet, packet_wire_valid p = true ->
     let hs := header_size (p_hdr p) in
     let ps := payload_size (p_pl p) hs in
@@ -30,7 +28,7 @@ Theorem length_fields_truthful_partial :
        | _ => True
        end.
 Proof. exact written_lengths_exact. Qed.
-Print Assumptions length_fields_truthful_partial.
+Print Assumptions written_length_values_exact.
 
 (** The bit-field read of core/read.rs (copy the containing bytes right-aligned into the
     128-bit lane, shift by ceil8(end) - end, mask) IS the mathematical bit field of the
@@ -44,17 +42,37 @@ Proof.
 Qed.
 Print Assumptions lane_read_spec.
 
-(** A field write leaves every field whose bytes do not overlap the written byte range as it
-    was.  PARTIAL with respect to read_write_disjoint (fields sharing a byte, e.g. version /
-    traffic class or the three segment lengths, need the bit-level lemma) and
-    read_write_same: both are exercised on every encoding by the independent reader. *)
-Theorem read_write_disjoint_bytes_partial :
-  forall (b : bytes) (r r2 : rng) (v : N),
-    byte_hi r <= blen b ->
-    byte_hi r2 <= byte_lo r \/ byte_hi r <= byte_lo r2 ->
+(** The read-modify-write of core/write.rs (load the containing bytes into the lane, clear
+    the field with the shifted mask, or in the truncated value, store the bytes back) changes
+    the big-endian value of the buffer exactly by replacing the field: all bits above ([H])
+    and below ([L]) stay, the field becomes [v mod 2^width]; the result is again a byte string
+    of the same length.  For every buffer, range and value. *)
+Theorem lane_write_spec :
+  forall (b : bytes) (r : rng) (v : N), bytes_ok b = true -> byte_hi r <= blen b ->
+    let s := 8 * blen b - r_end r in
+    exists H L, L < 2 ^ s
+      /\ be_val 0 b = (H * 2 ^ r_width r + bf_get b r) * 2 ^ s + L
+      /\ be_val 0 (lane_write b r v) = (H * 2 ^ r_width r + v mod 2 ^ r_width r) * 2 ^ s + L
+      /\ bytes_ok (lane_write b r v) = true /\ blen (lane_write b r v) = blen b.
+Proof. exact BitFieldProofs.lane_write_value. Qed.
+Print Assumptions lane_write_spec.
+
+(** read after write, same field: the value truncated to the field width -- a value that does
+    not fit is cut, which is why the encoder's gate must check ranges (unrepresentable_rejected) *)
+Theorem read_write_same :
+  forall (b : bytes) (r : rng) (v : N), bytes_ok b = true -> byte_hi r <= blen b ->
+    lane_read (lane_write b r v) r = v mod 2 ^ r_width r.
+Proof. exact BitFieldProofs.read_write_same_lemma. Qed.
+Print Assumptions read_write_same.
+
+(** read after write, any field whose BITS do not overlap the written range (fields sharing a
+    byte included: version / traffic class / flow id, CurrINF / CurrHF, the segment lengths) *)
+Theorem read_write_disjoint :
+  forall (b : bytes) (r : rng) (v : N) (r2 : rng),
+    bytes_ok b = true -> byte_hi r <= blen b -> byte_hi r2 <= blen b -> rng_disjoint r r2 = true ->
     lane_read (lane_write b r v) r2 = lane_read b r2.
-Proof. intros b r r2 v. exact (BitFieldProofs.read_after_write_other_bytes b r v r2). Qed.
-Print Assumptions read_write_disjoint_bytes_partial.
+Proof. exact BitFieldProofs.read_write_disjoint_lemma. Qed.
+Print Assumptions read_write_disjoint.
 
 (** The model of ChecksumDigest -- add_u64 / add_u32 limb sums, add_slice with its handling of
     an odd start address (first byte taken as the low half of a big-endian word, byte swap of
@@ -73,3 +91,126 @@ Theorem checksum_model_is_rfc1071 :
     /\ pseudo_digest h proto msg al_host al < 2 ^ 32 /\ slice_sum al msg < 2 ^ 32.
 Proof. exact l4_checksum_is_rfc1071. Qed.
 Print Assumptions checksum_model_is_rfc1071.
+
+(** The UDP datagram the (repaired) encoder produces carries a checksum that VERIFIES by the
+    literal RFC 1071 definition over the SCION pseudo header of the packet's address header:
+    for every address header the gate accepts, all ports, every payload up to the 16-bit limit,
+    both memory alignments. *)
+Theorem encoded_checksum_verifies :
+  forall (h : pkt_hdr) (sp dp : N) (d : bytes) (hs : N) (al_host al : bool),
+    addr_ok h -> bytes_ok d = true -> UdpDatagram_HEADER_SIZE_BYTES + blen d <= 65535 ->
+    checksum_verifies h 17
+      (encode_payload h (PL_Udp sp dp d) hs al_host al (zeros (UdpDatagram_HEADER_SIZE_BYTES + blen d))) = true.
+Proof. exact udp_checksum_verifies. Qed.
+Print Assumptions encoded_checksum_verifies.
+
+(** ... and more generally: whatever message with a zero checksum field at an even byte offset
+    [o] (UDP: 6, SCMP: 2) the encoder hands to [l4_checksum], writing the result into that
+    field makes the message verify. *)
+Theorem filled_checksum_verifies :
+  forall (h : pkt_hdr) (proto : N) (m : bytes) (o : N) (al_host al : bool),
+    addr_ok h -> 0 < proto < 256 -> bytes_ok m = true -> blen m <= 131072 ->
+    N.even o = true -> o + 2 <= blen m -> lane_read m (csum_rng o) = 0 ->
+    checksum_verifies h proto (lane_write m (csum_rng o) (l4_checksum h proto m al_host al)) = true.
+Proof. exact fill_checksum_verifies. Qed.
+Print Assumptions filled_checksum_verifies.
+
+(** * decode (encode m) = m, layer by layer
+
+    Each layer: the encoder's field writes (in its write order, into ANY well-formed buffer of
+    the layer's size, zeroed or not) followed by the decoder's view accessors give back the
+    model, and the buffer keeps its length.  The composed statement for a whole packet is
+    [decode_encode_partial]: what is missing is the placement of the layers inside the header
+    buffer (on_suffix / on_sub offsets of address header, path meta, info and hop fields),
+    the address header (ISD-AS split into two writes, host address copies) and the SCMP
+    messages; these are decided by the correspondence check (model bytes = implementation
+    bytes, independent reader on every encoding). *)
+Theorem decode_encode_info_layer :
+  forall (i : info_f) (buf : bytes), info_wf i = true -> bytes_ok buf = true -> blen buf = InfoField_SIZE_BYTES ->
+    decode_info (encode_info i buf) = Ok i /\ bytes_ok (encode_info i buf) = true /\ blen (encode_info i buf) = blen buf.
+Proof. exact info_roundtrip. Qed.
+Print Assumptions decode_encode_info_layer.
+
+Theorem decode_encode_hop_layer :
+  forall (h : hop_f) (buf : bytes), hop_wf h = true -> bytes_ok buf = true -> blen buf = HopField_SIZE_BYTES ->
+    decode_hop (encode_hop h buf) = Ok h /\ bytes_ok (encode_hop h buf) = true /\ blen (encode_hop h buf) = blen buf.
+Proof. exact hop_roundtrip. Qed.
+Print Assumptions decode_encode_hop_layer.
+
+Theorem decode_encode_common_header_layer :
+  forall (h : pkt_hdr) (units psize : N) (buf : bytes),
+    bytes_ok buf = true -> CommonHeader_SIZE_BYTES <= blen buf ->
+    h_tc h < 256 -> h_flow h < 2 ^ 20 -> h_nh h < 256 -> units < 256 -> psize < 65536 ->
+    path_type_num (h_path h) < 256 -> host_nibble (h_dst_host h) < 16 -> host_nibble (h_src_host h) < 16 ->
+    let b' := encode_common h units psize buf in
+    bytes_ok b' = true /\ blen b' = blen buf
+    /\ hv_version b' = Ok 0 /\ hv_traffic_class b' = Ok (h_tc h) /\ hv_flow_id b' = Ok (h_flow h)
+    /\ hv_next_header b' = Ok (h_nh h) /\ hv_header_len b' = Ok (units * 4) /\ hv_payload_len b' = Ok psize
+    /\ hv_path_type b' = Ok (path_type_num (h_path h))
+    /\ hv_dst_addr_type b' = Ok (host_nibble (h_dst_host h)) /\ hv_src_addr_type b' = Ok (host_nibble (h_src_host h))
+    /\ rd b' CommonHeader_RSV_RNG 16 = Ok 0
+    /\ (forall r2, byte_hi r2 <= blen buf -> CommonHeader_SIZE_BYTES * 8 <= r_start r2 -> lane_read b' r2 = lane_read buf r2).
+Proof. exact common_header_roundtrip_lemma. Qed.
+Print Assumptions decode_encode_common_header_layer.
+
+Theorem decode_encode_path_meta_layer :
+  forall (ci ch s0 s1 s2 : N) (buf : bytes),
+    bytes_ok buf = true -> StdPathMeta_SIZE_BYTES <= blen buf -> ci < 4 -> ch < 64 -> s0 < 64 -> s1 < 64 -> s2 < 64 ->
+    let b' := apply_writes (meta_writes ci ch s0 s1 s2) buf in
+    bytes_ok b' = true /\ blen b' = blen buf
+    /\ sp_curr_info b' = Ok ci /\ sp_curr_hop b' = Ok ch /\ sp_segs b' = Ok (s0, s1, s2)
+    /\ rd b' StdPathMeta_RSV_RNG 8 = Ok 0
+    /\ (forall r2, byte_hi r2 <= blen buf -> StdPathMeta_SIZE_BYTES * 8 <= r_start r2 -> lane_read b' r2 = lane_read buf r2).
+Proof. exact path_meta_roundtrip_lemma. Qed.
+Print Assumptions decode_encode_path_meta_layer.
+
+(** UDP: the whole L4 layer -- the encoded datagram is accepted by the datagram view with the
+    size it has, its Length field is the TRUE length as a number, and it decodes to the model *)
+Theorem decode_encode_partial :
+  forall (h : pkt_hdr) (sp dp : N) (d : bytes) (hs : N) (al_host al : bool) (buf : bytes),
+    bytes_ok buf = true -> bytes_ok d = true -> blen buf = UdpDatagram_HEADER_SIZE_BYTES + blen d ->
+    sp < 65536 -> dp < 65536 -> UdpDatagram_HEADER_SIZE_BYTES + blen d <= 65535 ->
+    let b' := encode_payload h (PL_Udp sp dp d) hs al_host al buf in
+    blen b' = blen buf /\ bytes_ok b' = true
+    /\ required_size_udp b' = Ok (blen b')
+    /\ udp_length b' = Ok (UdpDatagram_HEADER_SIZE_BYTES + blen d)
+    /\ decode_udp b' = Ok (PL_Udp sp dp d).
+Proof. exact udp_roundtrip_lemma. Qed.
+Print Assumptions decode_encode_partial.
+
+(** The length fields READ BACK from the bytes of an encoded packet are truthful, as numbers:
+    HdrLen * 4 is the header size, PayloadLen is the number of payload bytes, and for UDP the
+    Length field equals PayloadLen = 8 + data length.  [encode_packet p] is exactly
+    [hb ++ encode_payload ...] for the two buffers below.  For every accepted model; a value
+    written through [mod 2^16] would make this fail (it did for payloads above 65527 bytes
+    before the repair, Findings_C03.big_udp_length_would_wrap). *)
+Theorem length_fields_truthful :
+  forall (p : packet) (al_host al : bool), model_wf p = true -> packet_wire_valid p = true ->
+    let h := p_hdr p in
+    let hs := header_size h in
+    let ps := payload_size (p_pl p) hs in
+    let hb := encode_header h (trunc 16 ps) (zeros hs) in
+    encode_packet_al p al_host al = hb ++ encode_payload h (p_pl p) hs al_host al (zeros ps)
+    /\ hv_header_len hb = Ok hs /\ hv_payload_len hb = Ok ps
+    /\ match p_pl p with
+       | PL_Udp sp dp d => udp_length (encode_payload h (PL_Udp sp dp d) hs al_host al (zeros ps)) = Ok ps
+       | _ => True
+       end.
+Proof.
+  intros p alh al W V h hs ps hb.
+  destruct (encoded_header_lengths p W V) as (E1 & E2 & _). fold h hs ps hb in E1, E2.
+  refine (conj eq_refl (conj E1 (conj E2 _))).
+  destruct (p_pl p) as [b|sp dp d|m] eqn:Epl; try exact I.
+  destruct (written_lengths_exact p V) as (_ & _ & _ & _ & Hu). rewrite Epl in Hu. destruct Hu as [_ Hps].
+  fold h hs in Hps. cbn [payload_size] in ps.
+  unfold model_wf in W. apply Bool.andb_true_iff in W. destruct W as [_ W]. rewrite Epl in W. cbn [payload_wf] in W.
+  apply Bool.andb_true_iff in W. destruct W as [W Wd]. apply Bool.andb_true_iff in W. destruct W as [Wsp Wdp].
+  apply N.ltb_lt in Wsp. apply N.ltb_lt in Wdp.
+  unfold packet_wire_valid in V. apply Bool.andb_true_iff in V. destruct V as [V Vsz].
+  apply Bool.andb_true_iff in V. destruct V as [_ Vp]. rewrite Epl in Vp. cbn [payload_wire_valid] in Vp.
+  apply Bool.negb_true_iff in Vp. apply N.ltb_ge in Vp. unfold U16_MAX in Vp.
+  destruct (ChecksumVerify.zeros_ok ps) as [Zok Zlen].
+  destruct (udp_roundtrip_lemma h sp dp d hs alh al (zeros ps) Zok Wd Zlen Wsp Wdp Vp) as (_ & _ & _ & Rl & _).
+  exact Rl.
+Qed.
+Print Assumptions length_fields_truthful.
